@@ -367,7 +367,7 @@ def balance_cases(draw):
 
 class Balance(Facet):
     name = "balance"
-    examples = {"quick": 16000, "thorough": 720000}
+    examples = {"quick": 16000, "thorough": 480000}
     shards = {"quick": 16, "thorough": 16}
 
     def strategy(self, tier):
